@@ -363,6 +363,21 @@ def templates(w):
             yield 'cond-twins', Op('==', c1, c2)
         n8, n1 = ex.ExprId('n', 8), ex.ExprId('n', 1)
         yield 'cond-twins', Op('^', ex.ExprCond(n8, x, y), ex.ExprCond(n1, x, y))
+    # 7e sibling compositions with identical slot bounds whose first slot holds terms of DIFFERENT node kinds (a structural
+    # equality that answers "equal" across kinds lets the x op x rules fire)
+    if w == 16:
+        a8, b8, d8 = ex.ExprId('a8', 8), ex.ExprId('b8', 8), ex.ExprId('d8', 8)
+        kinds = [ex.ExprCond(ex.ExprId('zf', 1), a8, b8), Op('+', a8, b8), ex.ExprSlice(ex.ExprId('X32', 32), 0, 8), ex.ExprMem(ex.ExprId('p32', 32), 8),
+                 exprgen.Int(5, 8), a8, Op('-', a8)]
+        for i_, t1 in enumerate(kinds):
+            for j_, t2 in enumerate(kinds):
+                if i_ == j_:
+                    continue
+                c1 = ex.ExprCompose([(t1, 0, 8), (d8, 8, 16)])
+                c2 = ex.ExprCompose([(t2, 0, 8), (d8, 8, 16)])
+                for outer in ('^', '-', '|', '&'):
+                    yield 'compose-twins', Op(outer, c1, c2)
+                yield 'compose-twins', Op('+', c1, Op('-', c2))
     # 8 ==
     for c in few:
         yield 'eq', Op('==', Op('|', x, I(c)), I(0))
